@@ -836,6 +836,7 @@ def curvedgen_unit():
         Inst('GeoCircle.bounds', 'circleBounds', [('self', 'Circle')], 'Tuple4 N'),
         Inst('GeoEllipse.bounds', 'ellipseBounds', [('self', 'Ellipse')], 'Tuple4 N'),
         Inst('GeoEllipse.circumscribing_circle', 'ellipseCircle', [('self', 'Ellipse')], 'Prod C N'),
+        Inst('GeoRing.bounds', 'ringBounds', [('self', 'Ring')], 'Except Tuple4 N'),
     ]
     for t in ('Circle', 'Ellipse', 'Ring'):
         py2lean.LEAN_TYPE.setdefault(t, 'Unit')
@@ -886,7 +887,19 @@ def curvedgen_unit():
         # `kwargs.get('k')`: the requested sample count (0 when absent)
         if recv.typ == 'KwK' and attr == 'get' and len(args) == 1 and isinstance(args[0], py2lean.ast.Constant) and args[0].value == 'k':
             return Val(recv.text, 'Nat')
+        # `y.to_float()`: a tuple that starts with (longitude, latitude) (pinned)
+        if recv.typ == 'C' and attr == 'to_float' and not args:
+            return Val(recv.text, 'CoordTupleN')
         return None
+
+    def subscript(tr, v, sl):
+        A = py2lean.ast
+        if v.typ != 'CoordTupleN':
+            return None
+        if isinstance(sl, A.Slice) and sl.lower is None and sl.step is None and isinstance(sl.upper, A.Constant) and sl.upper.value == 2 \
+                and not isinstance(sl.upper.value, bool):
+            return Val(v.text, 'Pair N')
+        raise Unsupported(f'subscript `[{A.unparse(sl)}]` of `to_float()`')
 
     attr = {('C', 'longitude'): ('{}.1', 'N'), ('C', 'latitude'): ('{}.2', 'N')}
     for cls in ('Circle', 'Ellipse', 'Ring'):
@@ -895,14 +908,16 @@ def curvedgen_unit():
                  ('Ellipse', 'semi_major'): ('a', 'N'), ('Ellipse', 'semi_minor'): ('b', 'N'),
                  ('Ring', 'inner_radius'): ('inner', 'N'), ('Ring', 'outer_radius'): ('outer', 'N'),
                  ('Ring', 'angle_min'): ('amin', 'N'), ('Ring', 'angle_max'): ('amax', 'N')})
-    return Unit('SrcCurvedGen', src, 'GV.Src.CurvedGen', ['GeoVerif.Model.Sphere', 'GeoVerif.Model.PyPrelude'], insts,
+    py2lean.LEAN_TYPE.setdefault('CoordTupleN', 'GV.Sphere.Coord α')
+    return Unit('SrcCurvedGen', src, 'GV.Src.CurvedGen', ['GeoVerif.Model.Sphere', 'GeoVerif.Model.PyPrelude', 'GeoVerif.Model.PyBounds'], insts,
                 {'Circle': 'GeoCircle', 'Ellipse': 'GeoEllipse', 'Ring': 'GeoRing'},
                 header='open GV Num\nvariable {α : Type} [Num α]', attr_types=attr,
                 intrinsics={'math.sin': fn1('Num.sin'), 'math.cos': fn1('Num.cos'), 'math.sqrt': fn1('Num.sqrt'),
                             'math.radians': fn1('GV.Sphere.radians'), 'math.ceil': ceil,
                             'inverse_haversine_radians': dest('dest'), 'inverse_haversine_degrees': dest('destDeg'),
                             'GeoCircle': geocircle},
-                hooks={'isinstance': lambda typ: None, 'curved_gen': True, 'float_as_int': True, 'method': method, 'keywords': keywords,
+                pins={'coordinates.py::Coordinate.to_float': PINS['coordinates.py::Coordinate.to_float']},
+                hooks={'isinstance': lambda typ: None, 'curved_gen': True, 'float_as_int': True, 'method': method, 'subscript': subscript, 'keywords': keywords,
                        'prune_loop_params': True, 'local_type': lambda qual, name: 'List C',
                        'decorators': {'GeoCircle.centroid': ['property'], 'GeoEllipse.centroid': ['property']},
                        'constants': {'math.pi': ('Num.pi', 'N')}},
